@@ -6,7 +6,7 @@
    * `UPDATE`: `/^ *SET/i` has no trailing space (Python: `'(?i)^ *SET '`);
    * SELECT and UPDATE in one query is an assertion failure, not a parsing error;
    * `&&` is accepted next to `and` in the ON clause.
-  IMPORT-FREE, executable; tied to rbql.js by the correspondence (ops `actionsjs`, `joinexprjs`).
+  IMPORT-FREE, executable; tied to rbql.js by the correspondence (ops `actionsjs`, `joinexprjs`, `seplitjs`).
 -/
 import Rbql.Model.Parse
 namespace Rbql
@@ -100,5 +100,48 @@ def parseJoinExpressionJs (src : Str) : Except ParseError (Str × List (Str × S
   else do
     let pairs ← parseJoinPairsJs (s.length + 1) (dropSpaces (r2.drop 2))
     pure (tid, pairs)
+
+/-! ### `separate_string_literals` of rbql.js
+
+`/('((?<!\\)\\(\\\\)*'|[^'])*')|("…")|(`…`)/g` (after the repair fde8c3f: the look-behind).  The body is a greedy repetition of
+"an ODD run of backslashes counted from its first backslash, followed by the quote" or "any character but the quote" (line breaks
+included, unlike the Python pattern), then the closing quote; the regex engine backtracks: an escaped quote is skipped as a unit
+when a closing quote can still be found after it, otherwise the scan falls back to consuming the backslash alone. -/
+
+/-- after the opening quote `d`: the text after the closing quote.  `prevBs` = the previous character is a backslash -/
+def jsLiteralBody (d : Char) : Nat → Bool → Str → Option Str
+  | 0, _, _ => none
+  | _ + 1, _, [] => none
+  | fuel + 1, prevBs, c :: cs =>
+    if c = d then some cs
+    else
+      let run := bsRun (c :: cs)
+      if c = '\\' ∧ !prevBs ∧ run % 2 = 1 ∧ ((c :: cs).drop run).head? = some d then
+        match jsLiteralBody d fuel false ((c :: cs).drop (run + 1)) with
+        | some r => some r
+        | none => jsLiteralBody d fuel true cs
+      else jsLiteralBody d fuel (c = '\\') cs
+
+/-- the three alternatives at the head of `s`: (literal text, rest) -/
+def matchLiteralJs (s : Str) : Option (Str × Str) :=
+  match s with
+  | c :: cs =>
+    if c = '\'' ∨ c = '"' ∨ c = '`' then
+      (jsLiteralBody c (s.length + 1) false cs).map (fun rest => (s.take (s.length - rest.length), rest))
+    else none
+  | [] => none
+
+def separateAuxJs : Nat → Str → Str → List Str → List Str → List Str × List Str
+  | 0, _, cur, parts, lits => ((cur.reverse :: parts).reverse, lits.reverse)
+  | _ + 1, [], cur, parts, lits => ((cur.reverse :: parts).reverse, lits.reverse)
+  | fuel + 1, c :: cs, cur, parts, lits =>
+    match matchLiteralJs (c :: cs) with
+    | some (lit, rest) => separateAuxJs fuel rest [] (cur.reverse :: parts) (lit :: lits)
+    | none => separateAuxJs fuel cs (c :: cur) parts lits
+
+/-- `separate_string_literals` of rbql.js: (format expression with tabs turned into spaces, literals) -/
+def separateLiteralsJs (s : Str) : Str × List Str :=
+  let (parts, lits) := separateAuxJs (s.length + 1) s [] [] []
+  ((interleaveParts parts 0).map (fun c => if c = '\t' then ' ' else c), lits)
 
 end Rbql
